@@ -34,8 +34,8 @@ for l in (1, 2, 7, 12):
         for regime in ('short', 'long'):
             q = (l == 7 and kind in ('select', 'select_zero')) or (l == 2 and kind in ('select_iter', 'select_zero_iter', 'pred_succ'))
             inst(P, 'c01_%s_%s_l%d' % (kind, regime, l), 'c01::%s(%d, %s)' % (kind, l, 'true' if regime == 'long' else 'false'), unwind=26, unwindset=select_unwindset(l),
-                 stubs=ALLOC, tier='quick' if q else 'thorough',
-                 cap=900, cap_thorough=3600, mem=16, weight=100 + l,
+                 stubs=ALLOC, tier='quick' if q else ('deep' if l == 12 else 'thorough'),
+                 cap=900, cap_thorough=3600, mem=10, weight=100 + l,
                  desc='%s with the real SelectSupport::new, %s-superblock path: %d symbolic bits, argument over all usize' % (kind, regime, l),
                  shape={'len': l, 'regime': regime})
 
